@@ -10,6 +10,7 @@ import (
 	"fmt"
 	"os"
 	"path/filepath"
+	"strings"
 	"sync"
 	"testing"
 	"time"
@@ -129,6 +130,78 @@ func watcherSurvivesErrors(t *testing.T) []verifc19.Event {
 	return out
 }
 
+// fileVanishesDuringLoad: a rule file that is there when the provider opens it and gone before the
+// provider is done with it (editors probe a directory with files living for a moment; a deployment
+// tool replaces files) - the provider's handler is called for the CREATE event as its watch loop would.
+func fileVanishesDuringLoad(t *testing.T) []verifc19.Event {
+	t.Helper()
+
+	dir, err := os.MkdirTemp(os.Getenv("VERIF_WORK"), "c19fsv-")
+	if err != nil {
+		t.Fatalf("INFRA: %v", err)
+	}
+	defer os.RemoveAll(dir)
+
+	// big enough for the parser to be busy while the file goes away
+	var content strings.Builder
+
+	content.WriteString("version: \"1alpha4\"\nname: big\nrules:\n")
+
+	for i := 0; i < 3000; i++ {
+		fmt.Fprintf(&content, "- id: big-%d\n  match:\n    routes:\n    - path: /big/%d\n  execute:\n  - authenticator: anon\n", i, i)
+	}
+
+	proc := &countingProcessor{}
+	p := &Provider{src: dir, p: proc, l: zerolog.Nop(), configured: true}
+
+	var out []verifc19.Event
+
+	for round, delay := range []time.Duration{0, time.Millisecond, 3 * time.Millisecond, 8 * time.Millisecond, 20 * time.Millisecond} {
+		file := filepath.Join(dir, fmt.Sprintf("probe-%d.yaml", round))
+		if err := os.WriteFile(file, []byte(content.String()), 0o600); err != nil {
+			t.Fatalf("INFRA: %v", err)
+		}
+
+		gone := make(chan struct{})
+
+		go func() {
+			time.Sleep(delay)
+			os.Remove(file)
+			close(gone)
+		}()
+
+		outcome, detail := "rejected", ""
+
+		func() {
+			defer func() {
+				if r := recover(); r != nil {
+					outcome, detail = "panicked", fmt.Sprint(r)
+				}
+			}()
+
+			if err := p.ruleSetsChanged(fsnotify.Event{Name: file, Op: fsnotify.Create}); err != nil {
+				detail = err.Error()
+			} else if proc.count() > 0 {
+				outcome = "accepted"
+			}
+		}()
+
+		<-gone
+
+		if len(detail) > 200 {
+			detail = detail[:200]
+		}
+
+		out = append(out, verifc19.Event{
+			Ev: "feed", ID: fmt.Sprintf("ruleset-fs/vanish/removed-after-%s", delay), Entry: "ruleset-fs", Class: "file-vanishes",
+			Outcome: outcome, StateKept: true, Alive: true, Detail: detail,
+			Via: "filesystem.Provider.ruleSetsChanged(CREATE) while the file is removed",
+		})
+	}
+
+	return out
+}
+
 func TestVerifC19Provider(t *testing.T) {
 	dir, err := os.MkdirTemp(os.Getenv("VERIF_WORK"), "c19fs-")
 	if err != nil {
@@ -150,6 +223,6 @@ func TestVerifC19Provider(t *testing.T) {
 
 			return p.ruleSetsChanged(fsnotify.Event{Name: file, Op: fsnotify.Write})
 		},
-		Extra: func() []verifc19.Event { return watcherSurvivesErrors(t) },
+		Extra: func() []verifc19.Event { return append(watcherSurvivesErrors(t), fileVanishesDuringLoad(t)...) },
 	})
 }
